@@ -33,7 +33,9 @@ PoolGen == PoolSmall \cup {
   T("xfercb",   "transfer", "u1", "u1", "this",  "cb", 1, ""),
   T("vote1",    "vote",     "u1", "u1", "this",  "sys", 0, ""),
   T("vote3",    "vote",     "u3", "u3", "this",  "sys", 0, ""),
-  T("fdfail3",  "fdcall",   "u3", "u3", "this",  "c1", 0, "fail")
+  T("fdfail3",  "fdcall",   "u3", "u3", "this",  "c1", 0, "fail"),
+  T("callsys",  "call",     "u2", "u2", "this",  "c1", 1, "sys"),
+  T("fdsys",    "fdcall",   "u3", "u3", "this",  "c1", 0, "sys")
 }
 AllModes == {"next", "dup", "gap"}
 GenView == [bal |-> bal, nonce |-> nonce, staked |-> staked, total |-> total, owner |-> owner, deployed |-> deployed,
